@@ -1,2 +1,9 @@
 import DeepModel.Driver.TraceIO
-def main : IO Unit := Proto.serve TraceIO.handle
+import DeepModel.Driver.ThreadLocalIO
+import DeepModel.Driver.DeferredIO
+def handleC15 (j : Lean.Json) : Except String Lean.Json :=
+  match Proto.getStr j "op" with
+  | .ok "tl" => ThreadLocalIO.handle j
+  | .ok "cb" => DeferredIO.handle j
+  | _ => TraceIO.handle j
+def main : IO Unit := Proto.serve handleC15
